@@ -29,7 +29,8 @@ MANIFEST = {
 REQUIRED = ["KV.C18.kSpaces_table", "KV.C18.initMapSize_observed", "KV.C18.window_inv", "KV.C18.op_transparent",
             "KV.C18.transcript_fn", "KV.C18.after_eof", "KV.C18.shift_progress", "KV.C18.ops_terminate",
             "KV.C18.compressed_concat", "KV.C18.compressed_concat_concrete", "KV.C18.tokenizer_total", "KV.C18.lineIterator_total", "KV.C18.lineInput_blocks",
-            "KV.C18.integer_grammars_ok", "KV.C18.nan_not_prefix_determined", "KV.C18.concrete_grammar_ok",
+            "KV.C18.integer_grammars_ok", "KV.C18.Old.nan_not_prefix_determined", "KV.C18.Old.nan_depends_on_window",
+            "KV.C18.concrete_grammar_ok",
             "KV.C18.op_transparent_on", "KV.C18.transcript_fn_on", "KV.C18.transcript_fn_concrete", "KV.C18.Old.offset_after_compaction", "KV.C18.Old.spurious_eof", "KV.C18.Old.offset_after_mmap_fallback",
             "KV.C18.Old.not_transparent", "KV.C18.kMagicSize_eq"]
 
@@ -55,7 +56,7 @@ def gen_token(r):
                          b"-inf", b"infinity", b".", b"-", b"+.e1", b"1e400", b"1e-400", b"16777217", b"007", b"-.5e+2",
                          b"9007199254740993", b"1.17549435e-38", b"3.4028236e38", b"4.9e-324", b"2.5e-324", b"0e0",
                          b"18446744073709551615", b"18446744073709551616", b"-9223372036854775808", b"9223372036854775808",
-                         b"-18446744073709551615", b"1.7976931348623159e308", b"0.1", b"1e23", b"8.5"])
+                         b"-18446744073709551615", b"1.7976931348623159e308", b"0.1", b"1e23", b"8.5", b"NaN", b"nan", b"NaNx", b"-NaN", b"+NaN", b"Nan", b"NaN1", b"in", b"infx"])
     if k < 0.43:
         return b"x" * r.choice([100, 3000, 4095, 4096, 4097, 8191, 8192, 9000])
     if k < 0.45:
@@ -265,7 +266,7 @@ def classify(hkind, codec, op, impl, spec):
 def nan_token_at(plain, spec_prev_off):
     rest = plain[spec_prev_off:].lstrip(SP)
     tok = rest.split(None, 1)[0] if rest.split(None, 1) else b""
-    return tok in (b"NaN", b"nan")
+    return tok.startswith(b"NaN") or tok == b"nan"
 
 
 def run_case(ctx, T, r, ci, found_classes, numbers=True, nan=False):
@@ -368,7 +369,7 @@ def eval_case(ctx, T, r, plain, ops, backends, found_classes, sample=False, raws
         # which code does the implementation follow?  (faithful model of today's tree = `old`)
         follows = None
         if exact:
-            for variant in ("new", "old", "hIF", "HiF", "HIf"):
+            for variant in ("new", "HIFn", "hIFN", "HiFN", "HIfN", "old"):
                 h2, d2 = block_lines(plain, raw, hk, mk, mb, sm, ops, variant)
                 rcv, dov, _ = T.driver(d2)
                 if rcv == 0 and len(dov) == len(d2) and all(
@@ -380,7 +381,6 @@ def eval_case(ctx, T, r, plain, ops, backends, found_classes, sample=False, raws
             spec_prev = int(dout[3 + i - 1].rpartition(" @")[2])
         key = None
         if op in ("F", "B") and nan_token_at(plain, spec_prev):
-            key = "nan-token-window-end"
             cls = "nan-token"
         if cls in found_classes and key is None:
             found = True
@@ -430,8 +430,9 @@ def eval_case(ctx, T, r, plain, ops, backends, found_classes, sample=False, raws
             what += "; the implementation follows the window model exactly, so the deviation is in what the model takes as a parameter (the number grammar: result not a function of the token alone)"
         elif follows:
             what += ("; the implementation follows the window model variant %r = the faithful model of unrepaired code (old: no repair; "
-                     "three letters: lower case = that repair is missing, H Offset() after ReadShift compaction, I peek/get EOF test, "
-                     "F Offset() after the mmap fall back; see Properties/C18 section Old)" % follows)
+                     "letters: lower case = that repair is missing, H Offset() after ReadShift compaction, I peek/get EOF test, "
+                     "F Offset() after the mmap fall back, N NaN test of ParseNumber on the consumed characters; see Properties/C18 "
+                     "section Old)" % follows)
         rpath = os.path.join(ctx.replay_dir, "data_%s.bin" % sha(rraw))
         os.makedirs(ctx.replay_dir, exist_ok=True)
         with open(rpath, "wb") as f:
@@ -444,7 +445,11 @@ def eval_case(ctx, T, r, plain, ops, backends, found_classes, sample=False, raws
             b = compare_block(small, o1, o2, exact)
             if b is not None and b != "skipped":
                 _, _, impl, model, spec = b
-        rep = {"stream": "filepiece", "class": cls, "backend": name, "harness_kind": hk, "codec": codec, "min_buffer": mb,
+        others = {}
+        for m2 in meta:
+            if m2[0] != name and 0 <= i and m2[8] + 2 + i < len(ho) and 2 + i < m2[9]:
+                others["%s min_buffer=%d shim=%s" % (m2[0], m2[6], list(m2[5]))] = ho[m2[8] + 2 + i]
+        rep = {"stream": "filepiece", "class": cls, "same_op_same_bytes_on_the_other_backends_of_this_case": others, "backend": name, "harness_kind": hk, "codec": codec, "min_buffer": mb,
                "shim": {"mode": sm[0], "seed": sm[1], "span": sm[2], "mmap_fails_from": sm[3] if len(sm) > 3 else -1}, "ops": small, "first_bad_op_index_in_full_script": i,
                "impl": impl, "model": model, "spec": spec, "follows_variant": follows, "input_file": rpath,
                "input_len": len(rraw), "plain_len": len(rplain), "unshrunk_plain_len": len(plain),
@@ -473,7 +478,8 @@ def directed_cases(ctx, T, r, found_classes):
     found |= eval_case(ctx, T, r, b"ab " + b"c" * 5000 + b" " + b"e" * 9000 + b" tail\n", ["D sp", "D sp", "D sp", "D sp", "G"],
                        [("file+mmapfail", "file", "file", "plain", True, (0, 0, 1, 4096), 1),
                         ("file", "file", "file", "plain", True, (0, 0, 1), 1)], found_classes)
-    # NaN is accepted only when the window's last space directly follows it (known finding)
+    # N: Properties/C18 `Old.nan_depends_on_window`: the same bytes, two window positions (1-byte reads end the window
+    # right after "NaN "; full reads do not): before the repair NaN resp. ParseNumberException
     found |= eval_case(ctx, T, r, b"xxxxx NaN 1\n", ["D sp", "F", "D sp"],
                        [("pipe+shim1", "pipe", "pipe", "plain", True, (1, 0, 1), 1),
                         ("pipe", "pipe", "pipe", "plain", True, (0, 0, 1), 1)], found_classes)
